@@ -301,7 +301,7 @@ class RadioDriver(CRTPDriver):
 
         parsed_uri = urlparse(uri)
         parsed_query = parse_qs(parsed_uri.query)
-        parsed_path = parsed_uri.path.strip('/').split('/')
+        parsed_path = [p for p in parsed_uri.path.strip('/').split('/') if p]
 
         # Open the USB dongle
         if len(parsed_uri.netloc) < 10 and parsed_uri.netloc.isdigit():
